@@ -247,6 +247,13 @@ impl World
             sys.h_write(p, c);
         }
         let leaves: Vec<String> = model.files.keys().cloned().collect();
+        // undeclared bystander files ruler has no business with (C09)
+        sys.h_write("bystander.txt", b"keep me");
+        sys.h_write("notes.rules.bak", b"a\n:\nb\n:\nc\n:\n");
+        for d in model.dirs.iter()
+        {
+            sys.h_write(&format!("{}/keep", d), b"keep");
+        }
         let mut w = World
         {
             sys,
